@@ -125,6 +125,7 @@ func (w *c12World) seqDict(n, step int) *vt.Dict {
 type c12Shape struct {
 	height  int
 	leafEnd []int
+	leafAdr []hash.Hash // address of every leaf, in key order
 	perLvl  []int
 	addrs   map[hash.Hash]struct{}
 	maxLeaf int // entries in the fullest leaf
@@ -143,6 +144,7 @@ func (w *c12World) shape(m prolly.Map) (c12Shape, error) {
 			c := nd.Count()
 			ord += c
 			s.leafEnd = append(s.leafEnd, ord-1)
+			s.leafAdr = append(s.leafAdr, nd.HashOf())
 			if c > s.maxLeaf {
 				s.maxLeaf = c
 			}
@@ -566,4 +568,24 @@ func c12FirstLeafDiff(a, b c12Shape) string {
 		return fmt.Sprintf("%d vs %d leaves", len(a.leafEnd), len(b.leafEnd))
 	}
 	return "same leaf boundaries (internal levels differ)"
+}
+
+// leafOf is the index of the leaf holding ordinal o (the last leaf for o past the end).
+func (s c12Shape) leafOf(o int) int {
+	i := sort.SearchInts(s.leafEnd, o)
+	if i >= len(s.leafEnd) {
+		i = len(s.leafEnd) - 1
+	}
+	return i
+}
+
+// sharedWith counts the chunks of s that also occur in o.
+func (s c12Shape) sharedWith(o c12Shape) int {
+	n := 0
+	for a := range s.addrs {
+		if _, ok := o.addrs[a]; ok {
+			n++
+		}
+	}
+	return n
 }
